@@ -537,11 +537,11 @@ RTRLIB_EXPORT void pfx_table_for_each_ipv4_record(struct pfx_table *pfx_table, p
 {
 	assert(pfx_table);
 
-	if (!pfx_table->ipv4)
-		return;
-
+	// the root must be read under the lock: a writer may remove the last
+	// record of the tree between an unlocked check and the walk
 	pthread_rwlock_rdlock(&(pfx_table->lock));
-	pfx_table_for_each_rec(pfx_table->ipv4, fp, data);
+	if (pfx_table->ipv4)
+		pfx_table_for_each_rec(pfx_table->ipv4, fp, data);
 	pthread_rwlock_unlock(&pfx_table->lock);
 }
 
@@ -549,11 +549,11 @@ RTRLIB_EXPORT void pfx_table_for_each_ipv6_record(struct pfx_table *pfx_table, p
 {
 	assert(pfx_table);
 
-	if (!pfx_table->ipv6)
-		return;
-
+	// the root must be read under the lock: a writer may remove the last
+	// record of the tree between an unlocked check and the walk
 	pthread_rwlock_rdlock(&(pfx_table->lock));
-	pfx_table_for_each_rec(pfx_table->ipv6, fp, data);
+	if (pfx_table->ipv6)
+		pfx_table_for_each_rec(pfx_table->ipv6, fp, data);
 	pthread_rwlock_unlock(&pfx_table->lock);
 }
 
